@@ -39,36 +39,24 @@ func emit(rec map[string]any) {
 	out.Write(append(b, '\n'))
 }
 
-var nviol int
+var (
+	nviol   int
+	violSig = map[string]int{}
+)
 
 // Violation records behaviour of the real code that contradicts the property.
-// sig is a short stable signature (used to match known findings).
+// sig is a short stable signature (used to match known findings). At most 5 records per
+// signature and 300 in total are written, so a flood of one kind cannot hide another kind.
 func Violation(sig, msg string, c any) {
 	mu.Lock()
 	nviol++
-	n := nviol
+	violSig[sig]++
+	n, k := nviol, violSig[sig]
 	mu.Unlock()
-	if n > 50 {
+	if k > 5 || n > 300 {
 		return
 	}
 	emit(map[string]any{"kind": "violation", "sig": sig, "msg": msg, "case": c})
-}
-
-var devSeen = map[string]int{}
-
-// Deviation records that the real code took a *named* deviation from the property that the
-// model knows about (a known finding). It does not count towards Violations(); the driver
-// turns it into a KNOWN-FINDING line when known_findings.json lists an open finding whose
-// signature matches, and into a VIOLATION otherwise. At most 3 records per signature.
-func Deviation(sig, msg string, c any) {
-	mu.Lock()
-	devSeen[sig]++
-	n := devSeen[sig]
-	mu.Unlock()
-	if n > 3 {
-		return
-	}
-	emit(map[string]any{"kind": "deviation", "sig": sig, "msg": msg, "case": c})
 }
 
 // Violations returns the number of violations reported so far.
